@@ -405,6 +405,11 @@ def _has_dotstar(body):
 SECRETS = ('abc', 'p@ss^w0rd$', 'x', 'S3cr3t!', 'a.b*c+d?', '(x)[y]{z}',
            'back\\slash', 'ünï', 'tab|pipe&amp;', '%s%d', 'a:b;c,d', '-abc',
            '--x')
+THOROUGH_SECRETS = (
+    '!#$%&()*+,-./:;<=>?@[\\]^_`{|}~'.replace('<', '').replace('=', ''),
+    'A' * 40, '0123456789' * 4, 'pa$$w0rd-with_a_very/long+tail~of.40chars',
+    '\u00fc\u00f1\u00ef\u00e7\u00f8d\u00e9', '\u5bc6\u7801', '***', '*',
+    '\\', '.', '$', '^', 'a|b', '{}', '[', ')', '\\1', '\\g<1>', '%(key)s')
 SPACED = ('two words', ' lead', 'trail ')
 
 
@@ -435,10 +440,14 @@ def _pipeline(ctx, keys):
                          key + '12', key.upper() + '7')
             for sp in spellings:
                 secs = SECRETS if sp == key else SECRETS[:3]
+                if ctx.thorough:
+                    secs = SECRETS + THOROUGH_SECRETS
                 for s in secs:
                     for rname, msg, want in renderings(sp, s, mask):
                         if rname == '--key value' and '=' in s:
                             continue
+                        if rname == '<key>value</key>' and '<' in s:
+                            continue    # XML text cannot carry a '<'
                         cons = rname
                         if rname == '--key value' and s.startswith('-') \
                                 and any(k2 != key and k2 in key
